@@ -31,11 +31,17 @@ EXTENDS Naturals, FiniteSets, Sequences, TLC, Emit
 CONSTANTS N,            \* number of inputs
           S,            \* steps before the writer
           Ws,           \* worker counts explored; 0 = serial execution
-          WriterTyped   \* set of BOOLEAN: TRUE = the writer declares an input type (write_seqs),
+          WriterTyped,  \* set of BOOLEAN: TRUE = the writer declares an input type (write_seqs),
                         \*   FALSE = it accepts any serialisable value (write_json, write_db)
+          Named         \* set of BOOLEAN: value classes explored, per input: TRUE = the values that
+                        \*   flow between the steps of that record name their source (a cogent3 object
+                        \*   with info.source, a dict with info.source or source, a path string),
+                        \*   FALSE = they do not (a dict with "info": None as to_rich_dict() makes,
+                        \*   a dict without info, bytes): a NotCompleted made from such a value
+                        \*   cannot name the source, everything else must hold all the same
 
-VARIABLES plan, w, wtyped, submitted, pending, running, finished, result, order, cons, written
-vars == <<plan, w, wtyped, submitted, pending, running, finished, result, order, cons, written>>
+VARIABLES plan, named, w, wtyped, submitted, pending, running, finished, result, order, cons, written
+vars == <<plan, named, w, wtyped, submitted, pending, running, finished, result, order, cons, written>>
 
 Inputs   == 1..N
 Steps    == 1..S
@@ -61,15 +67,20 @@ Plans    == IF PlanSel = {} THEN [Inputs -> Profiles] ELSE PlanSel
 Input(i) == [k |-> "val", src |-> i, trail |-> <<>>, wrong |-> 0]
 NC(type, origin, msg, src) == [k |-> "nc", type |-> type, origin |-> origin, msg |-> msg, src |-> src]
 
+(* the source a NotCompleted made by step s from value v names: the loader's    *)
+(* input is the identifier itself; later steps see what the value tells them    *)
+Unknown == 0
+NameOf(s, v) == IF s = 1 \/ named[v.src] THEN v.src ELSE Unknown
+
 (* step s (outcome class out) called with value v *)
 StepApply(s, v, out) ==
     IF v.k = "nc" THEN v                                         \* passes through unchanged
-    ELSE IF v.wrong # 0 THEN NC("ERROR", s, "invalid-type", v.src) \* input type check of step s
+    ELSE IF v.wrong # 0 THEN NC("ERROR", s, "invalid-type", NameOf(s, v)) \* input type check of step s
     ELSE CASE out = "ok"    -> [v EXCEPT !.trail = Append(@, s)]
-           [] out = "raise" -> NC("ERROR", s, "exception", v.src)
-           [] out = "none"  -> NC("BUG", s, "none-out", v.src)
+           [] out = "raise" -> NC("ERROR", s, "exception", NameOf(s, v))
+           [] out = "none"  -> NC("BUG", s, "none-out", NameOf(s, v))
            [] out = "wrong" -> [v EXCEPT !.wrong = s]
-           [] out = "nc"    -> NC("FAIL", s, "custom", v.src)
+           [] out = "nc"    -> NC("FAIL", s, "custom", NameOf(s, v))
 
 RECURSIVE UpTo(_, _, _)
 UpTo(p, i, s) == IF s = 0 THEN Input(i) ELSE StepApply(s, UpTo(p, i, s - 1), p[i][s])
@@ -87,6 +98,7 @@ Expected(p, typed, i) == Rec(Run(p, i), typed)
 
 -----------------------------------------------------------------------------
 Init == /\ plan \in Plans
+        /\ named \in [Inputs -> Named]
         /\ w \in Ws
         /\ wtyped \in WriterTyped
         /\ submitted = FALSE
@@ -103,7 +115,7 @@ AtQuiescence == Quiescent(submitted, pending, running, finished)
 (* completed: the harness forces exactly this schedule on the real executor.   *)
 LogFinal(act) ==
     IF Quiescent(submitted', pending', running', finished') /\ cons' = order'
-    THEN Emit([act |-> act, n |-> N, plan |-> plan, w |-> w, wtyped |-> wtyped,
+    THEN Emit([act |-> act, n |-> N, plan |-> plan, named |-> named, w |-> w, wtyped |-> wtyped,
                order |-> order', cons |-> cons', written |-> written',
                vals |-> [i \in Inputs |-> Run(plan, i)], ret |-> "ok"])
     ELSE TRUE
@@ -112,14 +124,14 @@ SubmitT ==
     /\ ~submitted
     /\ submitted' = TRUE
     /\ pending' = [i \in Inputs |-> i]
-    /\ UNCHANGED <<plan, w, wtyped, running, finished, result, order, cons, written>>
+    /\ UNCHANGED <<plan, named, w, wtyped, running, finished, result, order, cons, written>>
 
 StartT(t) ==
     /\ w > 0 /\ pending # <<>> /\ t = Head(pending)
     /\ Cardinality(running) < w
     /\ pending' = Tail(pending)
     /\ running' = running \cup {t}
-    /\ UNCHANGED <<plan, w, wtyped, submitted, finished, result, order, cons, written>>
+    /\ UNCHANGED <<plan, named, w, wtyped, submitted, finished, result, order, cons, written>>
 
 (* the worker returns the proxy: source kept, object replaced by the result *)
 CompleteT(t) ==
@@ -128,7 +140,7 @@ CompleteT(t) ==
     /\ finished' = finished \cup {t}
     /\ result' = [result EXCEPT ![t] = [src |-> t, obj |-> Run(plan, t)]]
     /\ order' = Append(order, t)
-    /\ UNCHANGED <<plan, w, wtyped, submitted, pending, cons, written>>
+    /\ UNCHANGED <<plan, named, w, wtyped, submitted, pending, cons, written>>
 
 (* the master writes result t under the identifier of the proxy's source *)
 ConsumeT(t) ==
@@ -136,7 +148,7 @@ ConsumeT(t) ==
     /\ finished' = finished \ {t}
     /\ written' = [written EXCEPT ![result[t].src] = Rec(result[t].obj, wtyped)]
     /\ cons' = Append(cons, result[t].src)
-    /\ UNCHANGED <<plan, w, wtyped, submitted, pending, running, result, order>>
+    /\ UNCHANGED <<plan, named, w, wtyped, submitted, pending, running, result, order>>
 
 SerialT(t) ==
     /\ w = 0 /\ pending # <<>> /\ t = Head(pending)
@@ -145,7 +157,7 @@ SerialT(t) ==
     /\ written' = [written EXCEPT ![t] = Rec(Run(plan, t), wtyped)]
     /\ order' = Append(order, t)
     /\ cons' = Append(cons, t)
-    /\ UNCHANGED <<plan, w, wtyped, submitted, running, finished>>
+    /\ UNCHANGED <<plan, named, w, wtyped, submitted, running, finished>>
 
 Submit      == SubmitT
 Start(t)    == StartT(t)
@@ -163,6 +175,7 @@ FairSpec == Spec /\ WF_vars(Next)
 (* Design-level properties checked by TLC on the model itself.                *)
 
 TypeOK == /\ ~submitted => plan \in [Inputs -> Profiles]      \* the plan never changes
+          /\ named \in [Inputs -> BOOLEAN]
           /\ w \in Ws /\ wtyped \in BOOLEAN /\ submitted \in BOOLEAN
           /\ running \subseteq Inputs /\ finished \subseteq Inputs
           /\ Cardinality(running) <= w
@@ -194,7 +207,8 @@ KindAndStep ==
     AtQuiescence => \A i \in Inputs :
         LET ff == FirstFail(plan, wtyped, i) IN
         /\ (written[i].kind = "completed") <=> (ff = 0)
-        /\ ff # 0 => written[i].origin = ff /\ written[i].src = i
+        /\ ff # 0 => /\ written[i].origin = ff
+                      /\ written[i].src = i \/ (~named[i] /\ written[i].src = Unknown)
         /\ ff = 0 => written[i].src = i
 
 (* a NotCompleted passes unchanged through every later step *)
